@@ -105,7 +105,10 @@ def giant_vmdk_se(rng, dense):
     cap = (20 << 40) // 512                     # 20 TiB
     ng = cap // grain
     ngd = -(-cap // (gtes * grain))
-    picks = sorted({0, 5, gtes, ng // 2, ng - 1} | ({g for g in (rng.randrange(ng) for _ in range(300)) if g // gtes != (ng // 3) // gtes} if dense else set()))
+    run0 = gtes * 7 + gtes - rng.randrange(40, 200)          # a run of consecutive allocated grains crossing a table boundary
+    runlen = rng.randrange(300, 600)
+    picks = sorted({0, 5, gtes, ng // 2, ng - 1} | set(range(run0, run0 + runlen))
+                   | ({g for g in (rng.randrange(ng) for _ in range(300)) if g // gtes != (ng // 3) // gtes} if dense else set()))
     pos_base = (1 << 33)                         # cluster index >= 2^33: grains beyond sector 2^36
     pos = {g: pos_base + (len(picks) - k) * 3 for k, g in enumerate(picks)}
     tabs = sorted({g // gtes for g in picks})
@@ -143,6 +146,11 @@ def giant_vmdk_se(rng, dense):
         n = min(rng.choice([2048, 4096]), (g + 1) * grain * 512 - o)
         probes.append((o, n, patterns.pat(0, (grains_off + pos[g] * grain) * 512 + (o - g * grain * 512), n)))
     probes.append(((ng // 3) * grain * 512, 6000, bytes(6000)))
+    # one long sequential read over the run (many grains, two tables): the cost must stay a small multiple of its length
+    o = run0 * grain * 512 + 512
+    n = (runlen - 2) * grain * 512
+    exp = b"".join(patterns.pat(0, (grains_off + pos[g] * grain) * 512, grain * 512) for g in range(run0, run0 + runlen))
+    probes.append((o, n, exp[512:512 + n]))
     meta = 512 + ngd * 8 + len(tabs) * gtes * 8
     return Giant("vmdk-sesparse", [vf], lambda: VMDK(vf), cap * 512, probes, meta, note={"capacity_sectors": cap, "tables": len(tabs)})
 
@@ -196,24 +204,26 @@ def giant_vmdk_hosted(rng, dense):
 
 
 # ------------------------------------------------------------------------------------------------ VHDX / VHD / VDI / HDS
-def giant_vhdx(rng, dense):
+def giant_vhdx(rng, dense, sector=512):
     from dissect.hypervisor.disk.vhdx import VHDX
     bs = 256 << 20
     nb = (64 << 40) // bs
-    picks = sorted({0, 15, 16, 17, nb // 2, nb - 1} | ({rng.randrange(nb) for _ in range(300)} if dense else set()))
+    cr = (2 ** 23 * sector) // bs               # chunk ratio: a sector-bitmap entry is interleaved after every cr payload entries
+    near = [0, cr - 1, cr, cr + 1, nb // 2, nb - 1]
+    picks = sorted(set(near) | ({rng.randrange(nb) for _ in range(300)} if dense else set()))
     blocks = [(enc_vhdx.ST_NOT_PRESENT, None)] * nb
     top = (1 << 38) // (bs >> 20) - 2 * len(picks) - 8    # block slots around MB offset 2^38 (file offsets near 2^58 bytes)
     pos = {}
     for k, b in enumerate(picks):
         pos[b] = top + 2 * (len(picks) - k)
     blocks = [(enc_vhdx.ST_FULL, pos[b]) if b in pos else (rng.choice([0, 2, 3]), None) for b in range(nb)]
-    vf, info = enc_vhdx.build(blocks, block_size=bs, sector_size=512, disk_size=nb * bs)
+    vf, info = enc_vhdx.build(blocks, block_size=bs, sector_size=sector, disk_size=nb * bs)
     probes = []
-    for b in rng.sample([0, 15, 16, 17, nb // 2, nb - 1], 4):
-        o = b * bs + rng.choice([0, 512, bs - 8192])
+    for b in rng.sample(near, 5):
+        o = b * bs + rng.choice([0, sector, bs - 8192])
         probes.append((o, 4096, patterns.pat(0, info["data_base"] + pos[b] * bs + (o - b * bs), 4096)))
     meta = 5 * 65536 + (1 << 20) + info["nent"] * 8
-    return Giant("vhdx", [vf], lambda: VHDX(vf), nb * bs, probes, meta, c0=2 << 20, note={"blocks": nb, "bat_entries": info["nent"]})
+    return Giant(f"vhdx-s{sector}", [vf], lambda: VHDX(vf), nb * bs, probes, meta, c0=2 << 20, note={"blocks": nb, "bat_entries": info["nent"], "sector": sector})
 
 
 def giant_vhd(rng, dense):
@@ -285,12 +295,11 @@ def giant_vdi(rng, dense):
     return Giant("vdi", [vf], lambda: VDI(vf), nb * bs, probes, meta, note={"blocks": nb})
 
 
-def giant_hds(rng, dense):
+def giant_hds(rng, dense, ver=2):
     from dissect.hypervisor.disk.hdd import HDS
-    ver = rng.choice([1, 2])
     cs = 1 << 20
     spc = cs // 512
-    n = ((4 << 40) // cs) if ver == 2 else ((1 << 40) // cs)              # v1: 32-bit sector count
+    n = (((4 << 40) + (rng.randrange(1, 1 << 20) << 20)) // cs) if ver == 2 else ((1 << 40) // cs)   # v1: 32-bit sector count
     picks = sorted({0, 1, n // 2, n - 1} | ({rng.randrange(n) for _ in range(300)} if dense else set()))
     hdr_clusters = -(-(64 + 4 * n) // cs)
     if ver == 2:
@@ -328,7 +337,15 @@ def giant_qcow2_2m(rng, dense):
     return giant_qcow2(rng, dense, cb=21)
 
 
-BUILDERS = [giant_qcow2, giant_qcow2_2m, giant_vmdk_se, giant_vmdk_hosted, giant_vhdx, giant_vhd, giant_vdi, giant_hds]
+def giant_hds_v1(rng, dense):
+    return giant_hds(rng, dense, ver=1)
+
+
+def giant_vhdx_4k(rng, dense):
+    return giant_vhdx(rng, dense, sector=4096)
+
+
+BUILDERS = [giant_qcow2, giant_qcow2_2m, giant_vmdk_se, giant_vmdk_hosted, giant_vhdx, giant_vhdx_4k, giant_vhd, giant_vdi, giant_hds, giant_hds_v1]
 
 
 def measure(g):
